@@ -78,16 +78,18 @@ def serve_rsync(channel: Channel) -> None:
                 else:
                     remove(path)
             channel.send(("send", (relcomponents, checksum)))
-            modifiedfiles.append((path, msg))
+            modifiedfiles.append((path, msg, "/".join(relcomponents)))
 
     receive_directory_structure(destdir, [])
 
     STRICT_CHECK = False  # seems most useful this way for py.test
     channel.send(("list_done", None))
 
-    for path, (mode, time, size) in modifiedfiles:
+    for path, (mode, time, size), relpath in modifiedfiles:
         data = cast(bytes, channel.receive())
-        channel.send(("ack", path[len(destdir) + 1 :]))
+        # the name the sending side knows the file by (not derived from
+        # how the destination directory happens to be spelled)
+        channel.send(("ack", relpath))
         if data is not None:
             if STRICT_CHECK and len(data) != size:
                 raise OSError(f"file modified during rsync: {path!r}")
